@@ -8,6 +8,7 @@ EXTENDS Cluster
 CONSTANTS MaxLen,     \* rows per peer list
           WithBad,    \* lists may contain invalid rows
           WithDup,    \* lists may report a host id twice (at two addresses)
+          WithSplit,  \* rows may have a node-to-node address that differs from the connect address
           MaxLevel    \* histories of at most MaxLevel - 1 steps are explored
 
 \* (a step counter in the state, not TLCGet("level"): with several workers the level of a state
@@ -17,7 +18,12 @@ VARIABLE steps
 \* the ids in a fixed order (canonical row order; ids are interchangeable)
 IdSeq == <<"i1", "i2", "i3", "i4", "i5">>
 Ord(i) == CHOOSE k \in 1 .. Len(IdSeq) : IdSeq[k] = i
-RowSet == [id : Ids, addr : Addrs, inv : IF WithBad THEN {"ok", "bad"} ELSE {"ok"}]
+RowSet == {[id |-> i, addr |-> a, peer |-> p, inv |-> v] :
+             i \in Ids, a \in Addrs, p \in EventAddrs, v \in (IF WithBad THEN {"ok", "bad"} ELSE {"ok"})}
+          \cap {r \in [id : Ids, addr : Addrs, peer : EventAddrs, inv : {"ok", "bad"}] :
+                  r.peer = r.addr \/ (WithSplit /\ r.peer = Priv(r.addr))}
+\* addresses events may name
+EvA == IF WithSplit THEN EventAddrs ELSE AllAddrs \cup {C0peer}
 \* system.peers is keyed by the peer address: rows have distinct addresses
 GoodList(s) ==
   /\ \A j, k \in 1 .. Len(s) : j < k => s[j].addr # s[k].addr
@@ -27,10 +33,10 @@ Lists == {s \in UNION {[1 .. n -> RowSet] : n \in 0 .. MaxLen} : GoodList(s)}
 
 Ev(k, a) == [kind |-> k, addr |-> a]
 Batches ==
-  {<<Ev(k, a)>> : k \in {"UP", "DOWN"}, a \in AllAddrs}
+  {<<Ev(k, a)>> : k \in {"UP", "DOWN"}, a \in EvA}
   \cup {<<Ev("NEW_NODE", C0addr)>>, <<Ev("REMOVED_NODE", C0addr)>>}
-  \cup {<<Ev("UP", a), Ev("DOWN", a)>> : a \in AllAddrs} \cup {<<Ev("DOWN", a), Ev("UP", a)>> : a \in AllAddrs}
-  \cup {<<Ev("NEW_NODE", a), Ev(k, a)>> : k \in {"UP", "DOWN"}, a \in AllAddrs}
+  \cup {<<Ev("UP", a), Ev("DOWN", a)>> : a \in EvA} \cup {<<Ev("DOWN", a), Ev("UP", a)>> : a \in EvA}
+  \cup {<<Ev("NEW_NODE", a), Ev(k, a)>> : k \in {"UP", "DOWN"}, a \in EvA}
 
 Init == InitWith(<<>>) /\ steps = 0
 
@@ -43,7 +49,7 @@ Step ==
   \/ \E l \in Lists : Events(l, <<Ev("NEW_NODE", C0addr)>>)
   \* a topology and a status event in one batch while the report changes (one peer address
   \* stands for all: the addresses are interchangeable unless the filter names them)
-  \/ \E l \in Lists : \E k \in {"UP", "DOWN"} : \E a \in {"a1"} \cup Filt :
+  \/ \E l \in Lists : \E k \in {"UP", "DOWN"} : \E a \in ({"a1"} \cup Filt \cup (IF WithSplit THEN {"b1"} ELSE {})) :
         Events(l, <<Ev("NEW_NODE", a), Ev(k, a)>>)
   \/ \E a \in AllAddrs : NodeFail(truth, a)
   \/ \E a \in Addrs : NodeRecover(truth, a)
